@@ -566,6 +566,9 @@ class Gen:
         return self.node(kind, a.shape, f, f"({pre}un {f} {a.txt})", cpp, f"o_{pre}un(f_{f},{a.orc})", b, dx, [a])
 
     def bin(self, kind, f, a, b):
+        if self.r is not None and ("unit" in a.ops or "unit" in b.ops):
+            # F21 (open): iterating a vector_binary with a unit_vector operand can hang (column-major gemv)
+            raise Unsupported("element-wise binary with a unit_vector operand (F21)")
         pre = "" if kind == "V" else "m"
         cpp = {"mul": f"({a.cpp}*{b.cpp})", "div": f"({a.cpp}/{b.cpp})", "min": f"min({a.cpp},{b.cpp})",
                "max": f"max({a.cpp},{b.cpp})"}[f]
